@@ -490,6 +490,11 @@ func checkClaimScale(r *Result) {
 				return (x.Op == "call:github.com/cosmos/cosmos-sdk/types.NewInt64Coin" || x.Op == "call:github.com/cosmos/cosmos-sdk/types.NewCoin") && len(x.Args) == 2 && strings.HasSuffix(x.Args[0].Op, "BondDenom") && x.Args[1].Find(func(y *Term) bool { return y == div }) != nil
 			}) != nil
 			r.check(div != nil && denomOK, rule, "(x/bridge/keeper.Keeper).DecodeDepositReportValue # "+what+" is a coin of the bond denomination holding that quotient", P.Pos(ret.Pos()), clip(t.String(), 200))
+			// "amount/tip of any size": the quotient of a uint256 reaches the coin whole; a narrowing reading keeps its low bits
+			narrowed := t.Find(func(x *Term) bool {
+				return x.Op == "call:(*math/big.Int).Int64" || x.Op == "call:(*math/big.Int).Uint64" || x.Op == "call:(cosmossdk.io/math.Int).Int64" || x.Op == "call:(cosmossdk.io/math.Int).Uint64"
+			})
+			r.check(narrowed == nil, rule, "(x/bridge/keeper.Keeper).DecodeDepositReportValue # "+what+" reaches the coin without narrowing to 64 bits", P.Pos(ret.Pos()), clip(t.String(), 200))
 		}
 	}
 	r.check(n >= 2, rule, "(x/bridge/keeper.Keeper).DecodeDepositReportValue # success returns to decide", P.Pos(fn.Pos()), fmt.Sprint(n))
